@@ -59,6 +59,7 @@ pub fn cmd(_args: &[String]) {
         let stress = job.get("stress").and_then(|v| v.as_u64()).unwrap_or(0) as usize;
         let want_fresh = job.get("fresh").and_then(|v| v.as_bool()).unwrap_or(false);
         let bytecode = job.get("bytecode").and_then(|v| v.as_bool()).unwrap_or(false);
+        let mode = job.get("mode").and_then(|v| v.as_str()).unwrap_or("run").to_string();
         let reuse = match vms.get(&key) {
             Some((_, n)) => *n < 200 && !want_fresh,
             None => false,
@@ -77,7 +78,32 @@ pub fn cmd(_args: &[String]) {
             verif::set_stress(stress);
         }
         crate::common::LAST_PANIC_LOC.with(|c| c.borrow_mut().clear());
-        let (status, value, typ, msg) = run_source(&entry.0, "prog", src, bytecode);
+        let (status, value, typ, msg) = match mode.as_str() {
+            // compile to bytecode and return the serialised text
+            "compile" => {
+                let vm = entry.0.clone();
+                match catch_unwind(AssertUnwindSafe(|| crate::bytecode::compile(&vm, "prog", src))) {
+                    Ok(Ok(json)) => ("ok".to_string(), json, String::new(), String::new()),
+                    Ok(Err(e)) => ("err".to_string(), String::new(), String::new(), e),
+                    Err(p) => ("panic".to_string(), String::new(), String::new(), panic_message(&p)),
+                }
+            }
+            // load (possibly damaged) serialised bytecode given in "src"
+            "load" => {
+                let vm = entry.0.clone();
+                // the modules the bytecode refers to are loaded first (bytecode does not carry its dependencies)
+                if let Some(pre) = job.get("pre").and_then(|v| v.as_str()) {
+                    let _ = catch_unwind(AssertUnwindSafe(|| run_any(&vm, "pre", pre)));
+                    host::clear();
+                }
+                match catch_unwind(AssertUnwindSafe(|| crate::bytecode::run_json(&vm, "prog", src))) {
+                    Ok(Ok((v, t))) => ("ok".to_string(), v, t, String::new()),
+                    Ok(Err(e)) => ("err".to_string(), String::new(), String::new(), e),
+                    Err(p) => ("panic".to_string(), String::new(), String::new(), panic_message(&p)),
+                }
+            }
+            _ => run_source(&entry.0, "prog", src, bytecode),
+        };
         verif::set_stress(0);
         let log: Vec<i64> = host::take_log().into_iter().filter(|e| e.0 == -2).map(|e| e.2).collect();
         let loc = crate::common::LAST_PANIC_LOC.with(|c| c.borrow().clone());
